@@ -3,6 +3,7 @@ package props
 import (
 	"archive/tar"
 	"bytes"
+	"encoding/hex"
 	"fmt"
 	"io"
 	"strings"
@@ -10,6 +11,7 @@ import (
 	"time"
 	"unicode"
 
+	"filippo.io/age"
 	"github.com/pojntfx/stfs/pkg/config"
 	"github.com/pojntfx/stfs/pkg/encryption"
 	"github.com/pojntfx/stfs/pkg/keys"
@@ -31,6 +33,8 @@ type c18Case struct {
 	MsgSize  int      `json:"msg_size"`
 	MsgDist  int      `json:"msg_dist"`
 	MsgSeed  uint64   `json:"msg_seed"`
+	// WrappedHex: a recorded password-wrapped age identity that failed to parse (replay only)
+	WrappedHex string `json:"age_wrapped_hex,omitempty"`
 }
 
 type keyPair struct {
@@ -68,6 +72,12 @@ func c18ParseRC(c c18Case, pub []byte) (interface{}, error) {
 
 func c18Run(f failer, c c18Case) {
 	live.J.Begin(hist.Case{Property: "C18", Params: hist.Params{"c18": c}, Steps: []hist.Step{}})
+	if c.WrappedHex != "" {
+		raw, _ := hex.DecodeString(c.WrappedHex)
+		if _, err := keys.ParseIdentity("age", raw, c.Password); err != nil {
+			failf(f, "a password-wrapped age identity (last byte 0x%02x, %d bytes) does not parse with its own password %q: %v", raw[len(raw)-1], len(raw), c.Password, err)
+		}
+	}
 	msg := hist.Bytes(c.MsgSize, c.MsgDist, c.MsgSeed)
 	a := c18Keygen(f, c, c.Password)
 	b := c18Keygen(f, c, c.Other)
@@ -196,6 +206,44 @@ func c18Run(f failer, c c18Case) {
 			failf(f, "%s: the public key of another pair verified the header", c.Format)
 		}
 	}
+	// age: many more password-wrapped identities than Keygen's scrypt cost allows, wrapped exactly as
+	// Keygen does but with a low scrypt work factor: each must parse with its password, and be the key
+	if c.Format == "age" && c.Use == "encryption" && c.Password != "" {
+		for i := 0; i < *ageWraps; i++ {
+			id, err := age.GenerateX25519Identity()
+			if err != nil {
+				failf(f, "age keygen: %v", err)
+			}
+			rcp, err := age.NewScryptRecipient(c.Password)
+			if err != nil {
+				failf(f, "scrypt recipient: %v", err)
+			}
+			rcp.SetWorkFactor(10)
+			var out bytes.Buffer
+			w, err := age.Encrypt(&out, rcp)
+			if err != nil {
+				failf(f, "age wrap: %v", err)
+			}
+			io.WriteString(w, id.String())
+			if err := w.Close(); err != nil {
+				failf(f, "age wrap close: %v", err)
+			}
+			parsed, err := keys.ParseIdentity("age", out.Bytes(), c.Password)
+			live.S.AddInner(1)
+			if err != nil {
+				// keys come from crypto/rand: record the failing input so that the replay is exact
+				live.J.Add(map[string]interface{}{"param": map[string]string{"age_wrapped_hex": hex.EncodeToString(out.Bytes())}})
+				failf(f, "a password-wrapped age identity (last byte 0x%02x, %d bytes) does not parse with its own password %q: %v", out.Bytes()[out.Len()-1], out.Len(), c.Password, err)
+			}
+			if pid, ok := parsed.(*age.X25519Identity); !ok || pid.String() != id.String() {
+				failf(f, "a password-wrapped age identity parses to a different key")
+			}
+			pub, err := keys.ParseRecipient("age", []byte(id.Recipient().String()))
+			if err != nil || pub.(*age.X25519Recipient).String() != id.Recipient().String() {
+				failf(f, "an age recipient does not parse back: %v", err)
+			}
+		}
+	}
 	// wrong passwords
 	for _, w := range c.Wrong {
 		if w == c.Password {
@@ -282,6 +330,9 @@ func init() {
 	customReplays["C18"] = func(t *testing.T, c *hist.Case, path string) {
 		var cc c18Case
 		remarshal(c.Params["c18"], &cc)
+		if h, ok := c.Params["age_wrapped_hex"].(string); ok {
+			cc.WrappedHex = h
+		}
 		c18Run(t, cc)
 	}
 }
